@@ -156,9 +156,13 @@ def check_handover(ctx, cfg):
                     ty = strip_wrappers(ty["t"] if ty.get("k") in ("slice", "array") else adt_args(ty)[0])
                 return tstr(ty)
             al = elem(src) == elem(dst)
-            ok = same_ptr and eq and al
-            ctx.ob(rule, site, ok, "into_raw::<%s> -> from_raw::<%s>: same pointer (offset 0): %s; sizes %r vs %r equal under %s: %s; same element type (alignment): %s" % (
-                tstr(src), tstr(dst), same_ptr, s_sz, d_sz, fstr(f.facts), eq, al), at=f.at, cfg=cfg)
+            # while the block is raw (between into_raw and from_raw) nothing owns it: a call that can run caller code there leaks it on unwind
+            cl = Classifier(db)
+            window = [c.fn for c in a.calls if c is not s and c is not f and cl.classify(c, b) == "foreign" and not getattr(c, "no_effects", False)
+                      and (a.dominates(s.bb, c.bb) and c.bb != s.bb) and (a.reaches(c.bb, f.bb) or c.bb == f.bb)]
+            ok = same_ptr and eq and al and not window
+            ctx.ob(rule, site, ok, "into_raw::<%s> -> from_raw::<%s>: same pointer (offset 0): %s; sizes %r vs %r equal under %s: %s; same element type (alignment): %s; no call that can run foreign code while the block is raw: %s" % (
+                tstr(src), tstr(dst), same_ptr, s_sz, d_sz, fstr(f.facts), eq, al, (not window) or sorted(set(window))), at=f.at, cfg=cfg)
             ctx.sample({"rule": rule, "site": site, "cfg": cfg, "src": tstr(src), "dst": tstr(dst)})
             n += 1
     return n
